@@ -151,7 +151,12 @@ class WordSpace9(Subspace):
             idx = pd.Index([1, 1, 2, 2, 1, 3][:n], dtype="int64")
         Vg = d.V if idx is None else pd.Series(d.V, index=idx, name="v")
         Mg = M if idx is None else pd.Series(M, index=idx)
-        ops = ("min", "max", "shift", "diff") if temporal else KOPS
+        if in_dt.kind == "m":
+            ops = KOPS  # sums / means of durations are durations
+        elif temporal:
+            ops = ("min", "max", "shift", "diff")
+        else:
+            ops = KOPS
         inputs = set(v for v in py if v is not None)
         for masked in ((False, True) if 0 in ms else (False,)):
             mref = ms if masked else None
@@ -193,6 +198,24 @@ class WordSpace9(Subspace):
                                     res.fail("index", f"{tag} [{level}]: index {list(out.index)}")
                             if level == "GroupBy-gsorted":
                                 self._check_gsorted(res, tag, out, d, exp, defined, ks, mref, idx)
+                                continue
+                            if temporal and op in ("sum", "mean"):
+                                # durations: result is a duration in the input's unit; the mean may be
+                                # truncated to a whole unit
+                                if not (isinstance(odt, np.dtype) and odt == in_dt):
+                                    res.fail("dtype", f"{tag} [{level}]: {in_dt} in, {odt} out")
+                                ok = len(obs) == n
+                                for i in range(n):
+                                    if not ok or not defined[i]:
+                                        continue
+                                    e, o_ = exp[i], obs[i]
+                                    if (e is None) != (o_ is None):
+                                        ok = False
+                                    elif e is not None and abs(e - o_) > max(unit_ns, 1e-12 * abs(e)):
+                                        ok = False
+                                    if not ok:
+                                        res.fail("values", f"{tag} [{level}]: row {i}: expected {e} got {o_}")
+                                        break
                                 continue
                             if temporal and op != "diff":
                                 # exactness: results are input values, dtype unchanged
